@@ -3,7 +3,7 @@ Read::take(..).read_to_end}, and helpers to run an encoder / decoder region."""
 import re
 
 from . import core
-from .sym import C, OK, SOME, NONE, ERR, UNIT, Interp, Exit, Unsupported, fld, var, is_var, term_str, norm_dom
+from .sym import subst_const_type, C, OK, SOME, NONE, ERR, UNIT, Interp, Exit, Unsupported, fld, var, is_var, term_str, norm_dom
 
 
 def size_of_type(ty):
@@ -33,7 +33,8 @@ def p_write_all(I, n, path, arg_nodes, env):
     # args: writer, bytes
     I.eval(arg_nodes[0], env)
     t = I.eval(arg_nodes[1], env)
-    size = size_of_type(core.strip(arg_nodes[1]).get("ty")) or size_of_type(arg_nodes[1].get("ty"))
+    cenv = I.const_env[-1] if getattr(I, "const_env", None) else {}
+    size = size_of_type(subst_const_type(core.strip(arg_nodes[1]).get("ty"), cenv)) or size_of_type(subst_const_type(arg_nodes[1].get("ty"), cenv))
     if size is None:
         size = term_size(t)
     if size is None:
@@ -66,7 +67,8 @@ def p_read_exact(I, n, path, arg_nodes, env):
         env[lid] = ("slice", rdr, pos, size[1])
         return var(OK, UNIT)
     cur = I.eval(arg_nodes[1], env)
-    size = size_of_type(core.strip(arg_nodes[1]).get("ty"))
+    cenv = I.const_env[-1] if getattr(I, "const_env", None) else {}
+    size = size_of_type(subst_const_type(core.strip(arg_nodes[1]).get("ty"), cenv))
     if size is None:
         if cur[0] == "vec" and len(cur[1]) == 1 and cur[1][0][0] == "fill":
             size = cur[1][0][1]
